@@ -11,8 +11,8 @@ ENGINE = "R"
 TECHNIQUE = "Hypothesis-generated tiny runcards solved end to end; oracle = exact identity tensor in the flavour basis"
 RULE = (
     "Generated runcards whose mugrid contains the initial point (scale and nf) plus 0-2 other targets: QCD order 1-4 x "
-    "QED order 0-2 x 8 solution methods x {unpolarised, polarised, time-like} x nf0 3-6 (any scale, natural or "
-    "path-defined nf) x jittered log grids 2-8 points, degree 1-4 x scale variation none / exponentiated (any xif) / "
+    "QED order 0-2 x 8 solution methods x {unpolarised, polarised, time-like} (also with QED) x nf0 3-6 (any scale, natural or "
+    "path-defined nf) x jittered log grids 2-8 points, degree 1-4 x scale variation none (xif 1, 1/2 or 2) / exponentiated (any xif) / "
     "expanded (xif=1). Oracle: stored operator at (mu0^2, nf0) is 1 on (pid,j,pid,j) for the 13 partons, 0 elsewhere; "
     "photon identity with QED, zero row+column without (abs tol 1e-14). Non-trivial = nf0!=4 or QED or polarised/"
     "time-like or sv or another target computed in the same run; distinct by (order, method, flags, nf0, sv, npts, deg, "
@@ -45,22 +45,25 @@ def strategy(tier):
     )
     qed = ru.st_tiny_card(
         orders=(1, 2, 3, 4), qed=(1, 2), methods=("iterate-exact",) + tuple(ru.METHODS), target_is_init=True,
-        n_extra_targets=(0, 0), sv=(None, "exponentiated", "expanded"), grid_pts=(2, 8), iters=(1, 3),
+        n_extra_targets=(0, 0), sv=(None, "exponentiated", "expanded"), grid_pts=(2, 8), iters=(1, 3), flags=flags,
     )
     qed_extra = ru.st_tiny_card(
         orders=(1, 2), qed=(1, 2), methods=("iterate-exact",), target_is_init=True,
         n_extra_targets=(1, 1), sv=(None,), grid_pts=(2, 3), iters=(1, 2),
     )
 
-    def fix(case):
+    def fix(t):
+        case, xif = t
         if case["sv"] == "expanded":
             case["xif"] = 1.0
+        elif case["sv"] is None and xif is not None:
+            case["xif"] = xif  # a scale ratio without a scheme is inert
         # keep extra targets cheap: at most one and on small grids
         if len(case["mugrid"]) > 1 and len(case["xgrid"]) > 4:
             case["mugrid"] = case["mugrid"][:1]
         return case
 
-    return st.one_of(qcd, qcd, qcd, qed, qed_extra).map(fix)
+    return st.tuples(st.one_of(qcd, qcd, qcd, qed, qed_extra), st.sampled_from((None, 0.5, 2.0))).map(fix)
 
 
 def expected_identity(n, qed):
